@@ -133,15 +133,17 @@ def cmd_verify(a):
         drop(bad)
 
 
-def run_check(tree, out_dir, prop, tier, seed):
+def run_check(tree, out_dir, prop, tier, seed, budget=None):
     t0 = time.time()
+    e = {'VERIF_REPO': tree, 'VERIF_OUT': out_dir, 'VERIF_SEED': str(seed), 'PYTHONHASHSEED': '0'}
+    if budget:
+        e['VERIF_BUDGET'] = str(budget)
     rc, out = sh([PY, os.path.join(HERE, 'check.py'), '--property', prop, '--tier', tier],
-                 cwd=HERE, env={'VERIF_REPO': tree, 'VERIF_OUT': out_dir, 'VERIF_SEED': str(seed),
-                                'PYTHONHASHSEED': '0'}, timeout=7200)
+                 cwd=HERE, env=e, timeout=7200)
     mechs = re.findall(r'^  \[([^\]]+?) x(\d+)\] (.*)$', out, flags=re.M)
     summ = re.search(r'^SUMMARY .*$', out, flags=re.M)
     inc = re.search(r'^INCONCLUSIVE .*$', out, flags=re.M)
-    return prop, dict(exit=rc, tier=tier, seed=seed, wall_s=round(time.time() - t0, 1),
+    return prop, dict(exit=rc, tier=tier, seed=seed, wall_s=round(time.time() - t0, 1), budget_cpu_s=budget or 'default',
                       violation_lines=len(re.findall(r'^VIOLATION ', out, flags=re.M)),
                       mechanisms=[dict(mech=m, count=int(c), what=w[:300]) for m, c, w in mechs],
                       summary=summ.group(0) if summ else None,
@@ -156,6 +158,14 @@ def cmd_detect(a):
         props = [own]
     elif a.props == 'all':
         props = ALL
+    elif a.props == 'related':
+        # the properties anchored in a file the patch touches (+ the one it was written against)
+        touched = set(re.findall(r'^\+\+\+ b/(\S+)', open(os.path.join(d, 'patch.diff')).read(), flags=re.M))
+        props = [own]
+        for line in open(os.path.join(HERE, 'properties.jsonl')):
+            p = json.loads(line)
+            if p['id'] != own and touched & set(p['anchors']['files']):
+                props.append(p['id'])
     else:
         props = a.props.split(',')
     tree = worktree(os.path.join(d, 'patch.diff'))
@@ -163,13 +173,14 @@ def cmd_detect(a):
     os.makedirs(out_dir, exist_ok=True)
     try:
         with ThreadPoolExecutor(max_workers=a.jobs) as ex:
-            results = dict(ex.map(lambda p: run_check(tree, out_dir, p, a.tier, a.seed), props))
+            results = dict(ex.map(lambda p: run_check(tree, out_dir, p, a.tier, a.seed, a.budget), props))
     finally:
         drop(tree)
         shutil.rmtree(out_dir, ignore_errors=True)
     path = os.path.join(d, 'detect.json')
     have = json.load(open(path)) if os.path.exists(path) else {}
-    have.setdefault(a.tier, {}).update(results)
+    slot = a.tier if not a.budget else '%s@%gs' % (a.tier, a.budget)
+    have.setdefault(slot, {}).update(results)
     have['repo_head'] = sh(['git', '-C', '/repo', 'rev-parse', 'HEAD'])[1].strip()
     have['verif_head'] = sh(['git', '-C', HERE, 'rev-parse', 'HEAD'])[1].strip()
     with open(path, 'w') as f:
@@ -244,6 +255,7 @@ def main():
     d.add_argument('--props', default='own')
     d.add_argument('--seed', type=int, default=0)
     d.add_argument('--jobs', type=int, default=4)
+    d.add_argument('--budget', type=float, help='CPU seconds per shard (VERIF_BUDGET) instead of the default budget')
     sub.add_parser('matrix')
     i = sub.add_parser('intake')
     i.add_argument('id')
